@@ -10,13 +10,13 @@
   exactly the negated line figures; inverting twice is the identity on the
   inputs; the document sum, discount and charge totals do not depend on row
   order, and a row's own figures do not depend on the other rows.
-  Whole document (Proofs/CalcInvert.lean): for a document of plain lines the
+  Whole document (Proofs/CalcInvert.lean): for a document of input lines
+  (with or without breakdowns, foreign-currency items, any adjustments) the
   complete recalculation of the inverted document — lines, document discounts
   and charges, the tax summary with included-tax removal, every total, the
   advances and the presentation rounding — is the negated result.
   Not proved (metamorphic checks on the real code only): order independence
-  of the complete tax summary, `remove_included_payable`, and lines with
-  breakdowns under inversion.
+  of the order of groups inside the tax summary and `remove_included_payable`.
 -/
 import GoblVerif.Spec.C17
 import GoblVerif.Generated.CalcFacts
@@ -173,7 +173,7 @@ example : (∀ l ∈ sampleDoc.lines, PlainLine l) ∧ sampleDoc.rounding = none
   intro l hl
   simp only [sampleDoc, List.mem_singleton] at hl
   subst hl
-  exact ⟨rfl, rfl, rfl⟩
+  exact ⟨rfl, rfl⟩
 
 example : ((calculate exactOps sampleDoc).toOption.bind (·.totals)).map (fun t => (t.sum, t.tax, t.payable, t.due)) =
     some (⟨2701, 2⟩, ⟨445, 2⟩, ⟨2566, 2⟩, some ⟨1283, 2⟩) := by decide
